@@ -354,9 +354,10 @@ func (r Wrapper) getPresentationDefinitionFromRequest(ctx context.Context, param
 		if params.get(oauth.PresentationDefUriParam) != "" {
 			return nil, &oauth.OAuth2Error{Code: oauth.InvalidRequest, Description: "presentation_definition and presentation_definition_uri are mutually exclusive"}
 		}
-		err = json.Unmarshal([]byte(pdString), &presentationDefinition)
-		if err != nil || presentationDefinition == nil {
-			// (a JSON null is unmarshalled into a nil pointer without an error)
+		// validates against the Presentation Exchange JSON schema: plain unmarshalling accepts e.g. {"input_descriptors":[null]},
+		// which leaves nil pointers in the definition that are dereferenced when it is matched against the wallet
+		presentationDefinition, err = pe.ParsePresentationDefinition([]byte(pdString))
+		if err != nil {
 			return nil, &oauth.OAuth2Error{Code: oauth.InvalidRequest, Description: "invalid presentation_definition", InternalError: err}
 		}
 	} else {
